@@ -11,6 +11,12 @@
 (* map.  It demands safety only (C01 C02 C03): any valid placement is      *)
 (* accepted, whatever the search order; a refusal of a request that would  *)
 (* fit is recorded as a note "N.<what>", never as a violation.             *)
+(*                                                                         *)
+(* Traces of several application threads sharing the node list (ConcRig)   *)
+(* are merged traces: CTake / CGive are logged atomically with every slot  *)
+(* recorded / given back under the node lock, CFind / CRelease / Alloc at  *)
+(* the return of the calls.  A slot counts as held by the holder of the    *)
+(* call from the moment it is recorded.                                    *)
 (***************************************************************************)
 EXTENDS NodeAllocOps, TLC, Json, IOUtils
 
@@ -162,6 +168,77 @@ Step ==
                /\ errs' = errs \cup e0
                     \cup E(H[h] # <<>>, "C03.ReleaseNotHeld")
                     \cup (IF Known(H[h]) THEN E(lo = Credit(O, H[h]), "C03.NotRestored") ELSE {})
+                    \cup (IF Holding(h2) = {} THEN E(lo = InitOcc, "C03.IdleNotInitial") ELSE {})
+                    \cup MapErrs(lo, h2)
+                    \cup N(e.res = "raise", "N.ReleaseRaised")
+          (* ---- concurrent callers (merged trace of several threads): the node  *)
+          (* ---- level steps are the linearization points, the returns of the    *)
+          (* ---- calls say what the application was told                         *)
+          [] e.ev = "CTake" ->
+               \* Node.find_slot has recorded a slot for the call of holder h
+               LET h  == e.h
+                   s  == ToSlot(e.slot)
+                   h2 == [H EXCEPT ![h] = Append(@, s)] IN
+               /\ H' = h2
+               /\ errs' = errs \cup e0
+                    \cup E(e.slot.name_ok, "C02.NodeExists")
+                    \cup (IF SlotKnown(s)
+                          THEN      E(CoresRoom(O, s), "C01.GrantedBusyCore")
+                               \cup E(GpusRoom(O, s),  "C01.GrantedBusyGpu")
+                               \cup E(LfsRoom(O, s),   "C01.LfsOverdraw")
+                               \cup E(MemRoom(O, s),   "C01.MemOverdraw")
+                               \cup E(lo = Apply1(O, s, 1), "C01.MapNotMarked")
+                               \cup GhostErrs(h2)
+                               \cup E(ShareOK(h2) \/ ~ShareOK(H), "C03.HeldOfferedAgain")
+                          ELSE {"C01.OnlyKnown"})
+                    \cup MapErrs(lo, h2)
+          [] e.ev = "CGive" ->
+               \* Node.deallocate_slot has returned (rollback of a partial grant, or release)
+               LET h   == e.h
+                   s   == ToSlot(e.slot)
+                   at  == {i \in 1 .. Len(H[h]) : H[h][i] = s}
+                   k   == IF at = {} THEN 0 ELSE Min(at)
+                   h2  == IF k = 0 THEN H
+                          ELSE [H EXCEPT ![h] = [j \in 1 .. (Len(@) - 1) |-> IF j < k THEN @[j] ELSE @[j + 1]]] IN
+               /\ H' = h2
+               /\ errs' = errs \cup e0
+                    \cup E(k # 0, "C03.ReleaseNotHeld")
+                    \cup (IF SlotKnown(s) THEN E(lo = Apply1(O, s, -1), "C03.NotRestored") ELSE {})
+                    \cup (IF Holding(h2) = {} THEN E(lo = InitOcc, "C03.IdleNotInitial") ELSE {})
+                    \cup MapErrs(lo, h2)
+                    \cup N(e.res = "raise", "N.ReleaseRaised")
+          [] e.ev = "CFind" ->
+               \* find_slots has returned to the application
+               LET h == e.h  rr == e.rr  n == e.n IN
+               IF e.res = "grant" THEN
+                 LET p == ToPlacement(e.slots) IN
+                 /\ H' = H
+                 /\ errs' = errs \cup e0
+                      \cup E(H[h] = p,              "C02.GrantIsNotWhatWasTaken")
+                      \cup E(ShapeSlots(rr, n, p),  "C02.Slots")
+                      \cup E(ShapeNodes(rr, n, p),  "C02.NodeExists")
+                      \cup E(ShapeCores(rr, n, p),  "C02.CoresPerSlot")
+                      \cup E(ShapeGpus(rr, n, p),   "C02.GpusPerSlot")
+                      \cup E(ShapeLfsMem(rr, n, p), "C02.LfsMemPerSlot")
+                      \cup E(~Oversize(rr),         "C02.OversizeGranted")
+                      \cup E(lo = O, "C01.MapChangedSilently")
+                      \cup MapErrs(lo, H)
+               ELSE
+                 \* nothing granted: whatever was taken on the way has been given back
+                 /\ H' = [H EXCEPT ![h] = <<>>]
+                 /\ errs' = errs \cup e0
+                      \cup E(H[h] = <<>>, "C03.FailedFindChangedMap")
+                      \cup E(lo = O, "C01.MapChangedSilently")
+                      \cup MapErrs(lo, H')
+                      \cup N(e.res = "raise" /\ e.exc # "ValueError", "N.FindRaisedOtherThanValueError")
+          [] e.ev = "CRelease" ->
+               \* release_slots has returned: every slot of the placement was given back
+               LET h  == e.h
+                   h2 == [H EXCEPT ![h] = <<>>] IN
+               /\ H' = h2
+               /\ errs' = errs \cup e0
+                    \cup E(H[h] = <<>>, "C03.NotRestored")
+                    \cup E(lo = O, "C01.MapChangedSilently")
                     \cup (IF Holding(h2) = {} THEN E(lo = InitOcc, "C03.IdleNotInitial") ELSE {})
                     \cup MapErrs(lo, h2)
                     \cup N(e.res = "raise", "N.ReleaseRaised")
